@@ -938,7 +938,8 @@ func (h *anteH) editListsTo(ctx sdk.Context, black, white []string) {
 			if isAdd {
 				how = "add"
 			}
-			err := handler.Apply(ctx, 0, &tokenstypes.ProposalTokensWhiteBlackChange{IsBlacklist: isBlack, IsAdd: isAdd, Tokens: args}, sdk.ZeroDec())
+			_ = handler
+			err := h.w.Enact(ctx, 0, &tokenstypes.ProposalTokensWhiteBlackChange{IsBlacklist: isBlack, IsAdd: isAdd, Tokens: args})
 			after := app.TokensKeeper.GetTokenBlackWhites(ctx)
 			line := fmt.Sprintf("ante lists %s %s %s", name, how, joinOrDash(args))
 			r.Op(line, fmt.Sprintf("black=%s white=%s", sorted(after.Blacklisted), sorted(after.Whitelisted)))
